@@ -27,7 +27,8 @@ IsIdleWord(w) == w.v /\ w.d = <<IDL, IDL, IDL, IDL>> /\ w.c = 0
 HsInit == [sent |-> 0, run |-> 0, seen |-> FALSE]
 
 RunWith(h, w) == IF ~w.v THEN h.run ELSE IF IsIdleWord(w) THEN Min(h.run + 1, RxWordsNeeded) ELSE 0
-SeenWith(h, r) == h.seen \/ (r.en /\ RunWith(h, r.iw) >= RxWordsNeeded)
+\* the run must be completed by a word received while the handshake is running (where it began is left open)
+SeenWith(h, r) == h.seen \/ (r.en /\ IsIdleWord(r.iw) /\ RunWith(h, r.iw) >= RxWordsNeeded)
 
 HsFailing(h, r) ==
     IF ~r.cpl THEN "ok"
